@@ -30,7 +30,12 @@ fn ty_of(n: &str) -> DirectiveType {
 const TYPES: [&str; 7] = ["empty", "include", "after", "run", "tag", "temp", "write"];
 
 pub fn impl_detect(line: &str) -> String {
-    match Directive::detect_from(line) {
+    let r = std::panic::catch_unwind(|| Directive::detect_from(line));
+    let r = match r {
+        Ok(r) => r,
+        Err(_) => return "PANIC".to_string(),
+    };
+    match r {
         None => "N".to_string(),
         Some(d) => format!(
             "D {} {} {} {}",
@@ -43,7 +48,12 @@ pub fn impl_detect(line: &str) -> String {
 }
 pub fn impl_addline(ws: &str, pre: &str, ty: &str, line: &str) -> String {
     let mut d = Directive::new(ws, pre, ty_of(ty), vec![]);
-    match d.add_line(line) {
+    let r = std::panic::catch_unwind(std::panic::AssertUnwindSafe(|| d.add_line(line)));
+    let r = match r {
+        Ok(r) => r,
+        Err(_) => return "PANIC".to_string(),
+    };
+    match r {
         Err(()) => "N".to_string(),
         Ok(()) => format!(
             "A {}",
@@ -125,6 +135,7 @@ fn compare(rep: &mut Report, model: &Model, reqs: &[String], impls: &[String]) {
 }
 
 pub fn run(args: &Args) -> Report {
+    std::panic::set_hook(Box::new(|_| {}));
     let mut rep = Report::new("C15", "M1M2", &args.replay_dir);
     let model = Model::new(&args.model, &args.work);
     let mut rng = Rng::new(args.seed);
